@@ -23,10 +23,17 @@ ASSUMPTIONS = ["codec libraries are correct", "password constant over a history"
 NAMES = ["a.txt", "dir/b.bin", "dir/sub/c", "üñí.txt", "\U0001F600.bin", "sp ace", ".hidden", "k1", "k2", "k3", "k4", "k5", "k6"]
 
 
+def opt_int(v):
+    return None if v is None else int(v)
+
+
+# the member map: (name, kind, bytes, (mtime, ctime, atime), attributes) per member; the three times are FILETIME
+# integers or None when the entry has none
 def member_map_py7zr(data, password=None):
     try:
         with py7zr.SevenZipFile(io.BytesIO(data), "r", password=password) as z:
-            meta = [(f.filename, "dir" if f.is_directory else "file", None if f.lastwritetime is None else int(f.lastwritetime),
+            meta = [(f.filename, "dir" if f.is_directory else "file",
+                     (opt_int(f.lastwritetime), opt_int(f._get_property("creationtime")), opt_int(f._get_property("lastaccesstime"))),
                      f._get_property("attributes")) for f in z.files]
             fac = arch.Collect()
             z.extractall(factory=fac)
@@ -39,7 +46,8 @@ def member_map_py7zr(data, password=None):
 def member_map_ref(ctx, data, password=None):
     try:
         r = refreader.read_archive(data, ctx["model"], password=password, strict_tiling=False)
-        return ("ok", [(m["name"], "dir" if m["kind"] == "dir" else "file", m["data"], m["mtime"], m["attr"]) for m in r["members"]])
+        return ("ok", [(m["name"], "dir" if m["kind"] == "dir" else "file", m["data"], (m["mtime"], m["ctime"], m["atime"]), m["attr"])
+                       for m in r["members"]])
     except Exception as e:  # noqa
         return ("err", "%s: %s" % (type(e).__name__, str(e)[:150]))
 
@@ -172,6 +180,15 @@ def history_case(ctx, rep, rng, idx):
                 feats = sorted(set(feats + ["pack_crc"]))
             if any(m["kind"] == "empty" for m in members):
                 feats = sorted(set(feats + ["emptyfile_entries"]))
+            # creation / access times (7-Zip -mtc/-mta) on some reference-written bases, partly defined; drawn from a
+            # generator of its own so that the histories of the other cases stay what they were
+            r2 = random.Random(idx * 7919 + 13)
+            if r2.random() < 0.4:
+                for m in members:
+                    m["ctime"] = c06.FT + r2.randrange(10 ** 9) * 10 if r2.random() < 0.7 else None
+                    m["atime"] = c06.FT + r2.randrange(10 ** 9) * 10 if r2.random() < 0.7 else None
+                if any(m["ctime"] is not None or m["atime"] is not None for m in members):
+                    feats = sorted(set(feats + ["ctime_atime"]))
             bio = io.BytesIO(refwriter.write_archive(members, lay))
             for m in members:
                 used.add(m["name"])
@@ -185,7 +202,7 @@ def history_case(ctx, rep, rng, idx):
             good = [p for p in fx if os.path.basename(p) in ("test_1.7z", "test_2.7z", "test_3.7z", "copy.7z", "solid.7z",
                                                               "mblock_1.7z", "deflate.7z", "bzip2_2.7z", "zstd.7z", "ppmd.7z",
                                                               "lzma_1.7z", "lzma2_1.7z", "symlink.7z", "umlaut-solid.7z",
-                                                              "umlaut-non_solid.7z", "zerosize.7z", "test_folder.7z", "copy_2.7z")]
+                                                              "umlaut-non_solid.7z", "zerosize.7z", "test_folder.7z", "copy_2.7z", "test_6.7z")]
             path = rng.choice(good)
             data = open(path, "rb").read()
             base = member_map_py7zr(data)
@@ -246,7 +263,12 @@ def history_case(ctx, rep, rng, idx):
                 elif meta is not None:
                     for n, kd, d, mt, at in g[1]:
                         if n in meta and meta[n] != (mt, at):
-                            bad = "%s: metadata of earlier member %r changed from %r to %r after session %d" % (who, n, meta[n], (mt, at), si)
+                            bad = ("%s: metadata ((mtime, creation time, access time), attributes) of earlier member %r changed from %r "
+                                   "to %r after session %d" % (who, n, meta[n], (mt, at), si))
+                            break
+                        if n not in meta and (mt[1] is not None or mt[2] is not None):
+                            # py7zr stores neither for the members it adds (as 7-Zip without -mtc/-mta)
+                            bad = "%s: new member %r carries a creation/access time %r after session %d" % (who, n, mt[1:], si)
                             break
                 if bad:
                     rep.violation(bad + " [history %s; base features %s]" % (hist, ",".join(feats) or "plain"),
@@ -254,6 +276,13 @@ def history_case(ctx, rep, rng, idx):
                                    "password": password},
                                   match_keys=dict(mk, reader=who.split()[0]))
                     return
+            # the members of this session are "earlier members" for the next one
+            if base_meta is not None and got[0] == "ok":
+                base_meta = {n: (mt, at) for n, _, _, mt, at in got[1]}
+            if ref_meta is not None and gotref[0] == "ok":
+                ref_meta = {n: (mt, at) for n, _, _, mt, at in gotref[1]}
+            if base_meta is not None and any(v[0][1] is not None or v[0][2] is not None for v in base_meta.values()):
+                rep.dist("earlier_members_with_ctime_atime", shape[0])
         if idx < 3:
             rep.sample({"history": " ".join(shape), "members": [(n, kd, len(d)) for n, kd, d in expected]})
     finally:
@@ -265,7 +294,8 @@ def run(ctx):
     rng = random.Random(ctx["seed"])
     rep.cov["rule"] = ("histories w a{1..3}: base by py7zr / reference writer (C06 layouts) / tests/data fixture; sessions of 0..3 members "
                        "added via writestr, writef, write(file), write(directory); chains per session; header raw/encoded/encrypted; "
-                       "after every session the member map (names, kinds, bytes, mtime, attributes of earlier members) is read by py7zr "
+                       "after every session the member map (names, kinds, bytes; mtime, creation time, access time and attributes of every "
+                       "earlier member, those of earlier sessions included; new members carry no creation/access time) is read by py7zr "
                        "and by the strict reference reader; non-trivial = non-empty session; distinct by (history index, session)")
     n = 80 if tier == "quick" else 3000
     for i in range(n):
